@@ -49,8 +49,12 @@
    did not specify a value for ECX */
 extern void _skinny_verif_cpuid
     (unsigned leaf, int has_subleaf, unsigned subleaf, unsigned regs[4]);
+extern unsigned _skinny_verif_xgetbv(unsigned index);
 #undef __cpuid
 #undef __cpuid_count
+#undef SKINNY_XGETBV
+#define SKINNY_XGETBV(index, lo, hi) \
+    do { (lo) = _skinny_verif_xgetbv((index)); (hi) = 0; } while (0)
 #define __cpuid(level, a, b, c, d) \
     do { \
         unsigned verif_regs[4]; \
